@@ -46,6 +46,7 @@ func (r implRes) String() string { return r.Status + "|" + r.Out }
 type runner struct {
 	c       *vh.Ctx
 	m       *vh.Model
+	pool    *pool
 	n       int
 	pending []gcase
 	shrunk  map[string]int
@@ -55,8 +56,8 @@ type runner struct {
 func (r *runner) tagFor() string { r.n++; return strconv.Itoa(r.n) }
 
 // runImpl runs the program on a fresh VM in a child process.
-func runImpl(p *Prog, tag string) implRes {
-	rs := runAll(1, []runReq{{Src: p.Source(tag), Tag: tag}})[0]
+func (r *runner) runImpl(p *Prog, tag string) implRes {
+	rs := r.pool.run([]runReq{{Src: p.Source(tag), Tag: tag}})[0]
 	return implRes{Out: rs.Out, Status: rs.Status, Detail: rs.Detail}
 }
 
@@ -99,7 +100,7 @@ func parseModel(line string) implRes {
 }
 
 func (r *runner) add(g gcase) {
-	if r.stopped {
+	if r.stopped || badCaseBreak(g.Prog) {
 		return
 	}
 	r.pending = append(r.pending, g)
@@ -166,7 +167,7 @@ func (r *runner) flush() {
 		tag := r.tagFor()
 		reqs[i] = runReq{ID: i, Src: g.Prog.Source(tag), Tag: tag, Nodes: true}
 	}
-	impls := runAll(c.Workers, reqs)
+	impls := r.pool.run(reqs)
 	for i, g := range cases {
 		p := g.Prog
 		ref := RunRef(p, refBudgetN)
@@ -234,9 +235,9 @@ func (r *runner) flush() {
 			c.Hit("known-divergence:" + quick)
 			continue
 		}
-		sp := r.shrink(p, g.Stream)
+		sp := r.shrink(p, g.Stream, ref.Status, kind)
 		sref := RunRef(sp, refBudgetN)
-		simpl := runImpl(sp, r.tagFor())
+		simpl := r.runImpl(sp, r.tagFor())
 		skind := divergenceKind(simpl, sref)
 		sig := sigOf(sp, skind)
 		r.shrunk[sig]++
@@ -365,10 +366,10 @@ func reduce(p *Prog, k int) (*Prog, bool) {
 // shrink keeps a divergence origami/reference while removing program parts. Outside the
 // known streams the program stays inside the fragment, so that a main-stream failure can
 // never be signed as a known finding.
-func (r *runner) shrink(p *Prog, stream string) *Prog {
+func (r *runner) shrink(p *Prog, stream string, refStatus, kind string) *Prog {
 	keepFragment := !strings.HasPrefix(stream, "known") && p.InFragment()
 	cur := p
-	budget := 400
+	budget := 300
 	for improved := true; improved && budget > 0; {
 		improved = false
 		for k := 0; budget > 0; k++ {
@@ -376,15 +377,16 @@ func (r *runner) shrink(p *Prog, stream string) *Prog {
 			if !ok {
 				break
 			}
-			if keepFragment && !q.InFragment() {
+			if keepFragment && !q.InFragment() || badCaseBreak(q) {
+				continue
+			}
+			ref := RunRef(q, refBudgetN)
+			if ref.Status != refStatus { // e.g. an initialisation was removed: a different program class
 				continue
 			}
 			budget--
-			ref := RunRef(q, refBudgetN)
-			if ref.Status == "budget" {
-				continue
-			}
-			if differs(runImpl(q, r.tagFor()), ref) {
+			impl := r.runImpl(q, r.tagFor())
+			if differs(impl, ref) && divergenceKind(impl, ref) == kind {
 				cur = q
 				improved = true
 				break
@@ -392,6 +394,29 @@ func (r *runner) shrink(p *Prog, stream string) *Prog {
 		}
 	}
 	return cur
+}
+
+// badCaseBreak: a `break;` written directly in a case body with statements behind it. The
+// switch parser ends the case at such a break and then rejects the dead statements; the
+// generator never writes them (parser restriction outside the modelled core).
+func badCaseBreak(p *Prog) bool {
+	bad := false
+	chk := func(b []*S) {
+		for i, s := range b {
+			if s.K == "break" && i+1 < len(b) {
+				bad = true
+			}
+		}
+	}
+	p.walk(func(s *S) {
+		if s.K == "switch" {
+			for _, c := range s.Cases {
+				chk(c.B)
+			}
+			chk(s.Dflt)
+		}
+	}, nil)
+	return bad
 }
 
 // ---------------------------------------------------------------- exhaustive skeletons
@@ -558,7 +583,8 @@ func corpus() []gcase {
 // ---------------------------------------------------------------- run
 
 func Run(c *vh.Ctx) {
-	r := &runner{c: c, shrunk: map[string]int{}}
+	r := &runner{c: c, shrunk: map[string]int{}, pool: newPool(c.Workers)}
+	defer r.pool.close()
 	if c.ModelPath != "" {
 		m, err := vh.StartModel(c.ModelPath)
 		if err != nil {
